@@ -5,7 +5,7 @@
    outside this list, binary operators and label matchers are covered by the differential harness only. *)
 From Coq Require Import String.
 From Coq Require Import QArith ZArith List Bool Sorted Permutation.
-From OG Require Import C18.Model C18.ProofsA C18.ProofsB C18.ProofsC C18.ProofsD.
+From OG Require Import C18.Model C18.Model2 C18.ProofsA C18.ProofsB C18.ProofsC C18.ProofsD C18.ProofsE C18.ProofsF.
 Import ListNotations.
 Open Scope Q_scope.
 
@@ -94,6 +94,63 @@ Theorem C18_changes_resets_split : forall differs cut,
 Proof. exact count_pairs_split_equals_whole. Qed.
 Print Assumptions C18_changes_resets_split.
 
+(* ---- slice reducers of engine/prom_functions.go: stdvar/stddev, present/absent, quantile, deriv, predict_linear ---- *)
+
+(* stdvar_over_time (stddev = its square root): Welford over (prev, curr) = upstream's Welford pass over the window,
+   for every cut *)
+Theorem C18_stdvar_over_time_split : forall cut, impl_stdvar_split cut = spec_stdvar_over_time (concat cut).
+Proof. exact stdvar_split_equals_whole. Qed.
+(* upstream's Welford recurrence is exactly the population variance (sum x^2 - (sum x)^2/n)/n over the rationals *)
+Theorem C18_stdvar_is_population_variance : forall w, w <> [] ->
+  oQeq (spec_stdvar_over_time w) (Some (var_of_moments (moments (vals w)))).
+Proof. exact stdvar_is_population_variance. Qed.
+(* the merge law: per-record moment vectors (n, sum x, sum x^2) added component-wise give the whole window's stdvar *)
+Theorem C18_stdvar_moment_merge_equals_whole : forall cut, concat cut <> [] ->
+  oQeq (spec_stdvar_over_time (concat cut))
+       (Some (var_of_moments (fold_right mplus (0, 0, 0) (map (fun r => moments (vals r)) cut)))).
+Proof. exact stdvar_moment_merge_equals_whole. Qed.
+Print Assumptions C18_stdvar_moment_merge_equals_whole.
+
+Theorem C18_present_over_time_split : forall cut, impl_present_split cut = spec_present_over_time (concat cut).
+Proof. exact present_split_equals_whole. Qed.
+Theorem C18_absent_over_time_split : forall cuts,
+  impl_absent_over_time cuts = spec_absent_over_time (map (@concat sample) cuts).
+Proof. exact absent_split_equals_whole. Qed.
+Theorem C18_absent_over_time_spec : forall ws, spec_absent_over_time ws = Some 1 <-> (forall w, In w ws -> w = []).
+Proof. exact absent_spec. Qed.
+Print Assumptions C18_absent_over_time_split.
+
+(* quantile_over_time: (prev, curr) = whole window for every cut; the answer depends only on the MULTISET of the
+   samples (records merged in any order = multiset union); the model's sort is a sorted permutation of its input *)
+Theorem C18_quantile_over_time_split : forall q cut, impl_quantile_split q cut = spec_quantile_over_time q (concat cut).
+Proof. exact quantile_split_equals_whole. Qed.
+Theorem C18_quantile_multiset_invariant : forall q (w w' : list sample),
+  Permutation w w' -> oxeq (spec_quantile_over_time q w) (spec_quantile_over_time q w').
+Proof. exact quantile_any_arrangement. Qed.
+Theorem C18_quantile_records_any_order : forall q cut cut',
+  Permutation cut cut' -> oxeq (impl_quantile_split q cut) (spec_quantile_over_time q (concat cut')).
+Proof. exact quantile_records_any_order. Qed.
+Theorem C18_qsort_sorted_permutation : forall l, StronglySorted Qle (qsort l) /\ Permutation (qsort l) l.
+Proof. exact qsort_sorted_permutation. Qed.
+Print Assumptions C18_quantile_records_any_order.
+
+(* deriv / predict_linear: least squares over (prev, curr) = upstream's linearRegression on the window for every cut.
+   deriv: upstream anchors x at the first sample, the implementation at the evaluation time - the slope is the same;
+   predict_linear: both anchor at the evaluation time t (the offset only moves the window) *)
+Theorem C18_deriv_split : forall t offset cut, oQeq (impl_deriv t offset cut) (spec_deriv (concat cut)).
+Proof. exact deriv_split_equals_whole. Qed.
+Theorem C18_predict_linear_split : forall dur t offset cut,
+  oQeq (impl_predict_linear dur t offset cut) (spec_predict_linear t dur (concat cut)).
+Proof. exact predict_linear_split_equals_whole. Qed.
+Theorem C18_regression_slope_anchor_independent : forall t1 t2 l, fst (lin_regress t2 l) == fst (lin_regress t1 l).
+Proof. exact regress_slope_anchor_independent. Qed.
+(* the merge law of the regression state (n, sum x, sum y, sum xy, sum x^2): component-wise sum, for every cut *)
+Theorem C18_regression_moments_merge : forall tref (cut : list (list sample)),
+  lin_eq (lin_sums tref (concat cut)) (fold_right lin_plus lin0 (map (lin_sums tref) cut)).
+Proof. exact lin_sums_concat. Qed.
+Print Assumptions C18_deriv_split.
+Print Assumptions C18_regression_moments_merge.
+
 (* the upstream mean (incremental) is the arithmetic mean *)
 Theorem C18_mean_is_sum_over_count : forall l, mean_inc l * qlen l == qsum l.
 Proof. exact mean_inc_sum. Qed.
@@ -146,3 +203,20 @@ Example C18_example_increase :
 Proof. vm_compute. repeat split. Qed.
 Example C18_example_steps : steps 100 200 30 = [100; 130; 160; 190]%Z.
 Proof. reflexivity. Qed.
+
+(* values 2 4 4 4 5 5 7 9: mean 5, variance 4 (stddev 2); median 4.5; 0.9-quantile 7.6; a line y = 3 + 2 x (x in s) *)
+Definition ex_v : list sample :=
+  [(0%Z, 2); (1000%Z, 4); (2000%Z, 4); (3000%Z, 4); (4000%Z, 5); (5000%Z, 5); (6000%Z, 7); (7000%Z, 9)].
+Definition ex_line : list sample := [(1000%Z, 5); (2000%Z, 7); (4000%Z, 11); (7000%Z, 17)].
+Example C18_example_slice_functions :
+  oQeq (spec_stdvar_over_time ex_v) (Some 4) /\
+  oQeq (impl_stdvar_split [[(0%Z, 2); (1000%Z, 4)]; []; [(2000%Z, 4); (3000%Z, 4); (4000%Z, 5)]; [(5000%Z, 5); (6000%Z, 7); (7000%Z, 9)]]) (Some 4) /\
+  oxeq (spec_quantile_over_time (1 # 2) ex_v) (Some (XFin (9 # 2))) /\
+  oxeq (spec_quantile_over_time (9 # 10) ex_v) (Some (XFin (76 # 10))) /\
+  oxeq (spec_quantile_over_time (3 # 2) ex_v) (Some XPosInf) /\
+  oQeq (spec_deriv ex_line) (Some 2) /\
+  oQeq (impl_deriv 10000 3000 [[(1000%Z, 5)]; [(2000%Z, 7); (4000%Z, 11)]; [(7000%Z, 17)]]) (Some 2) /\
+  oQeq (spec_predict_linear 10000 60 ex_line) (Some 143) /\
+  oQeq (impl_predict_linear 60 10000 3000 [[(1000%Z, 5); (2000%Z, 7)]; [(4000%Z, 11); (7000%Z, 17)]]) (Some 143) /\
+  spec_absent_over_time [[]; []] = Some 1 /\ spec_absent_over_time [[]; ex_line] = None.
+Proof. vm_compute. repeat split. Qed.
